@@ -138,6 +138,22 @@ def by_key(doc):
     return out
 
 
+COMBINATION = {'xfov', 'yfov', 'xmag', 'ymag', 'aspect_ratio'}   # the loader documents an invalid combination of these as malformed
+
+
+def schema_required(data, site):
+    """is the removed child required by the shipped schema in its parent (content model valid with it, invalid without it)?"""
+    from vlib import xsdreq
+    root = ET.fromstring(data)
+    parent = dict((c, p) for p in root.iter() for c in p)
+    el = list(root.iter())[site[1]]
+    kids = [faults.local(k) for k in el]
+    if kids[site[2]] in COMBINATION:
+        return False
+    gp = parent.get(el)
+    return bool(xsdreq.required_child(core.REPO, faults.local(gp) if gp is not None else '', faults.local(el), kids, site[2]))
+
+
 def check_fault(data, site, base):
     """base = (doc, closure, by_key snapshot, ids) of the undamaged load. Returns (result or None, info)"""
     kind = site[0]
@@ -148,8 +164,13 @@ def check_fault(data, site, base):
         return ('raw:%s:%s' % (kind, strict[4:]), 'fault %s makes the loader raise the raw exception %s' % (describe(data, site), strict[4:])), info
     if strict == 'ok':
         return None, info
-    if strict not in ALLOWED[kind]:
-        return ('wrong-kind:%s:%s' % (kind, strict), 'fault %s raises %s, expected one of %s' % (describe(data, site), strict, sorted(ALLOWED[kind]))), info
+    allowed = ALLOWED[kind]
+    if kind == 'dropchild' and schema_required(data, site):
+        # "needed data isn't there" (DaeIncompleteError), the definition of something referred to is gone (DaeBrokenRefError) or the only
+        # supported variant is gone (DaeUnsupportedError) - but nothing is "corrupted": the documented meaning of DaeMalformedError
+        allowed = allowed - {'DaeMalformedError'}
+    if strict not in allowed:
+        return ('wrong-kind:%s:%s' % (kind, strict), 'fault %s raises %s, expected one of %s' % (describe(data, site), strict, sorted(allowed))), info
     if kind == 'truncated':
         return None, info
     # ---- ignore configurations
@@ -241,6 +262,49 @@ def describe(data, site):
     if site[0] == 'dropchild':
         extra = faults.local(list(el)[site[2]])
     return '%s <%s> %s' % (site[0], faults.local(el), extra)
+
+
+def mask_history(seed):
+    """returns None or (sig, text)"""
+    import collada
+    r = random.Random('c08mask/%s' % seed)
+    allcls = CLASSES + ['DaeError']
+    d = collada.Collada(ignore=[cls(c) for c in r.sample(allcls, r.randint(0, 2))] if r.random() < 0.5 else None)
+    eff = [m.__name__ for m in d.maskedErrors]
+    hist = ['new(%s)' % ','.join(eff)]
+    nrec = len(d.errors)
+    for _ in range(r.randint(1, 8)):
+        k = r.random()
+        if k < 0.3:
+            d.ignoreErrors(None)
+            eff = []
+            hist.append('ignoreErrors(None)')
+        elif k < 0.6:
+            args = r.sample(allcls, r.randint(1, 2))
+            d.ignoreErrors(*[cls(a) for a in args])
+            eff = eff + args
+            hist.append('ignoreErrors(%s)' % ','.join(args))
+        else:
+            c = r.choice(CLASSES)
+            hist.append('error(%s)' % c)
+            want = any(issubclass(cls(c), cls(m)) for m in eff)
+            try:
+                try:
+                    raise cls(c)('probe')
+                except cls('DaeError') as e:
+                    d.handleError(e)
+                got = True
+            except cls('DaeError'):
+                got = False
+            except Exception as e:
+                return ('mask-history:raw', 'after %s handleError raised the raw exception %s' % (hist, type(e).__name__))
+            nrec += 1
+            if got != want:
+                return ('mask-history:' + ('not-restored' if got else 'not-ignored'),
+                        'after %s a %s %s although the classes ignored since the last clearing are %s' % (hist, c, 'is ignored' if got else 'aborts', eff))
+            if len(d.errors) != nrec:
+                return ('mask-history:not-recorded', 'after %s the handled error was not recorded' % hist)
+    return None
 
 
 def make_base(seed, kind):
@@ -348,6 +412,18 @@ def run(ctx):
     d.ignoreErrors(None)
     if d.maskedErrors != []:
         ctx.violation('c08:clear-mask', 'ignoreErrors(None) leaves the mask %r' % (d.maskedErrors,), dict(kind='clear'))
+    # the mask as behaviour, not as an attribute: after any sequence of ignoreErrors calls (clearing included) an error passes
+    # handleError iff one of the classes ignored SINCE THE LAST CLEARING is a superclass of it; every handled error is recorded
+    from collada import common as _common
+    allcls = CLASSES + ['DaeError']
+    for i in range(ctx.n(150, 3000)):
+        mseed = ctx.rng.randrange(10 ** 9)
+        res = mask_history(mseed)
+        ctx.count('mask-history')
+        ctx.case(dict(kind='mask-history', seed=mseed))
+        if res and res[0] not in reported:
+            reported.add(res[0])
+            ctx.violation('c08:' + res[0], res[1], dict(kind='mask-history', seed=mseed))
     # class table and ignoreErrors correspondence
     from collada import common
     names = [n for n in dir(common) if n.startswith('Dae') and n.endswith('Error')]
@@ -380,6 +456,11 @@ def replay(ctx, rep):
         out2, _ = load(bad2, ignore=[cls('DaeError')])
         print('  strict: %s, ignoring DaeError: %s' % (out, out2))
         return out.startswith('raw:') or out2 != 'ok'
+    if rep.get('kind') == 'mask-history':
+        res = mask_history(rep['seed'])
+        if res:
+            print('  ' + res[1])
+        return res is not None
     if rep.get('kind') == 'docload':
         from props import c08_docload as dl
         res = dl.check_case(dl.gen_case(random.Random('c08dl/%s' % rep['seed'])))
